@@ -103,6 +103,25 @@ class _Future(Future):
         )  # pragma: no cover
 
 
+class _OutputFuture(_Future):
+    # A future resolved directly by library code (the output of f_zip, f_or, f_and...)
+    # rather than mirroring a delegate.  Unlike a plain Future, cancel() on it - by the
+    # library or by the user - also releases callers blocked in concurrent.futures.wait()
+    # or as_completed(), since nobody else will ever call set_running_or_notify_cancel().
+    def _me_cancel(self):
+        return True
+
+    def set_result(self, result):
+        with self._me_lock:
+            super(_OutputFuture, self).set_result(result)
+        self._me_invoke_callbacks()
+
+    def set_exception(self, exception):
+        with self._me_lock:
+            super(_OutputFuture, self).set_exception(exception)
+        self._me_invoke_callbacks()
+
+
 def copy_future_exception(f1, f2):
     if "exception_info" in dir(f1):
         (exception, traceback) = f1.exception_info()
